@@ -972,7 +972,7 @@ class StaleFamily(SubsFamily):
                                 'id_from_pos', 'get_merkle', 'header'])
                 q = dict(op='c_query', c=rng.randrange(nclients), m=m, s=rng.randrange(13),
                          h=rng.randrange(1000), pos=rng.randrange(4), merkle=rng.random() < 0.5,
-                         cp=rng.choice([0, 0, rng.randrange(1, 1000)]), at=at)
+                         cp=rng.choice([0, rng.randrange(1, 1000), rng.randrange(1, 1000)]), at=at)
                 if rng.random() < 0.6:
                     q['back'] = rng.choice([0, 0, 1, 2, 3])     # the heights a reorg replaces
                 ops.append(q)
